@@ -77,7 +77,7 @@ def run(cmd, cwd=None, timeout=3600, env=None, ok_codes=(0,)):
 def spec_files(*names):
     out = []
     for n in names:
-        for d in (SPEC, os.path.join(SPEC, "trace"), os.path.join(SPEC, "mc")):
+        for d in (SPEC, os.path.join(SPEC, "trace"), os.path.join(SPEC, "mc"), os.path.join(SPEC, "proofs")):
             f = os.path.join(d, n)
             if os.path.exists(f):
                 out.append(f)
@@ -89,10 +89,30 @@ def spec_files(*names):
 
 def all_spec_files():
     out = []
-    for d in (SPEC, os.path.join(SPEC, "trace"), os.path.join(SPEC, "mc")):
+    for d in (SPEC, os.path.join(SPEC, "trace"), os.path.join(SPEC, "mc"), os.path.join(SPEC, "proofs")):
         if os.path.isdir(d):
             out += [os.path.join(d, f) for f in os.listdir(d) if f.endswith(".tla")]
+    # modules with TLAPS proofs extend TLAPS (a library module of the proof system, not on TLC's path)
+    tl = "/opt/veriftools/tlapm/lib/tlapm/stdlib/TLAPS.tla"
+    if os.path.exists(tl):
+        out.append(tl)
     return out
+
+
+def tlaps(workdir, module, timeout=1200):
+    """check the proofs of a module with the TLA+ proof system; returns the number of obligations proved"""
+    t0 = time.time()
+    shutil.copy(spec_files(module + ".tla")[0], workdir)
+    try:
+        p = subprocess.run(["tlapm", "--threads", "8", "--cleanfp", module + ".tla"], cwd=workdir, stdout=subprocess.PIPE,
+                           stderr=subprocess.STDOUT, text=True, timeout=timeout)
+    except subprocess.TimeoutExpired:
+        raise NoVerdict("tlapm %s timed out" % module)
+    m = re.search(r"All (\d+) obligations? proved", p.stdout)
+    if p.returncode != 0 or not m:
+        raise NoVerdict("tlapm %s did not prove every obligation (a proof that does not go through is not a verdict about the code):\n%s"
+                        % (module, p.stdout[-4000:]))
+    return int(m.group(1)), time.time() - t0
 
 
 class TLCResult:
